@@ -94,7 +94,7 @@ impl TreeSpace {
     pub fn rebuild(&self, init: usize, hist: &[Op]) -> Built {
         let b = build(&self.cfg, self.order, &self.inits[init].init);
         for op in hist {
-            let _ = apply(&b.root, op);
+            let _ = apply_sess(&b, op);
         }
         b
     }
@@ -119,8 +119,8 @@ impl TreeSpace {
         matches!(self.cfg, Cfg::Mem | Cfg::Phys)
     }
 
-    pub fn key_of(&self, obs: &Snap, raws: &[Snap]) -> u128 {
-        let mut bytes = vec![];
+    pub fn key_of(&self, obs: &Snap, raws: &[Snap], held: &[u8]) -> u128 {
+        let mut bytes = held.to_vec();
         if self.is_plain() {
             obs.key_bytes(&mut bytes);
         } else {
@@ -138,6 +138,16 @@ impl TreeSpace {
             if let Some(o) = before.entries.get(p) {
                 if let Ok((FType::File, len)) = o.meta {
                     if len as usize >= self.alphabet.append_cap {
+                        return false;
+                    }
+                }
+            }
+        }
+        if let Op::OpenWrite(p, true) = op {
+            // same reason: an append session adds one or two bytes to what it finds
+            if let Some(o) = before.entries.get(p) {
+                if let Ok((FType::File, len)) = o.meta {
+                    if len >= 2 {
                         return false;
                     }
                 }
@@ -468,7 +478,7 @@ impl TreeSpace {
         for plan in plans {
             let b = self.rebuild(st.init, &st.hist);
             b.ctl.arm(plan);
-            let out = apply(&b.root, op);
+            let out = apply_sess(&b, op);
             let log = b.ctl.disarm();
             let after = snapshot(&b.root, &self.probes);
             e.transitions += 1;
@@ -524,6 +534,72 @@ impl TreeSpace {
 }
 
 /// Is the node id inside a non-first layer of some overlay of `cfg`?
+/// Description of the write handle a live system keeps open (empty: none); part of the state key.
+pub fn held_desc(b: &Built) -> Vec<u8> {
+    b.held.lock().unwrap().as_ref().map(|(_, d)| d.clone()).unwrap_or_default()
+}
+
+/// `apply` plus the session steps, whose handle lives with the system.
+pub fn apply_sess(b: &Built, op: &Op) -> Outcome {
+    use std::io::Write;
+    match op {
+        Op::OpenWrite(p, append) => {
+            let r = guard(|| {
+                let path = match at(&b.root, p) {
+                    Ok(x) => x,
+                    Err(e) => return Err(e),
+                };
+                let seed = if *append { PathApi::read_all(&path).unwrap_or_default() } else { vec![] };
+                let h = if *append { path.append_file() } else { path.create_file() };
+                match h {
+                    Ok(h) => {
+                        let mut d = format!("held|{}|{}|", p, append).into_bytes();
+                        d.extend_from_slice(&seed);
+                        *b.held.lock().unwrap() = Some((Held(h), d));
+                        Ok(())
+                    }
+                    Err(e) => Err(einfo(&e)),
+                }
+            });
+            match r {
+                Ok(Ok(())) => Outcome::Ok(Val::Unit),
+                Ok(Err(e)) => Outcome::Err(e),
+                Err(m) => Outcome::Panic(m),
+            }
+        }
+        Op::FlushWrite => {
+            let mut g = b.held.lock().unwrap();
+            match g.as_mut() {
+                None => Outcome::Ok(Val::Unit),
+                Some((h, d)) => {
+                    d.extend_from_slice(b"|flushed");
+                    match guard(|| h.0.write_all(b"h").and_then(|_| h.0.flush())) {
+                        Ok(Ok(())) => Outcome::Ok(Val::Unit),
+                        Ok(Err(e)) => Outcome::Err(io_einfo(&e)),
+                        Err(m) => Outcome::Panic(m),
+                    }
+                }
+            }
+        }
+        Op::CloseWrite => {
+            let taken = b.held.lock().unwrap().take();
+            match taken {
+                None => Outcome::Ok(Val::Unit),
+                Some((Held(mut h), _)) => match guard(move || {
+                    let r = h.write_all(b"h");
+                    drop(h);
+                    r
+                }) {
+                    Ok(Ok(())) => Outcome::Ok(Val::Unit),
+                    Ok(Err(e)) => Outcome::Err(io_einfo(&e)),
+                    Err(m) => Outcome::Panic(m),
+                },
+            }
+        }
+        _ => apply(&b.root, op),
+    }
+}
+
 pub fn node_is_lower(cfg: &Cfg, node: &str) -> bool {
     let idx: Vec<usize> = node.split('.').skip(1).filter_map(|s| s.parse().ok()).collect();
     let mut cur = cfg;
@@ -881,7 +957,7 @@ impl Space for TreeSpace {
             let b = self.rebuild(i, &[]);
             let obs = snapshot(&b.root, &self.probes);
             let raws = if self.is_plain() { vec![] } else { self.raw_snaps(&b) };
-            let key = self.key_of(&obs, &raws);
+            let key = self.key_of(&obs, &raws, &[]);
             let mut vio = vec![];
             let model = if self.mon.model {
                 let m = spec.model.clone().unwrap_or_else(|| obs.to_model());
@@ -940,7 +1016,8 @@ impl Space for TreeSpace {
         let before = snapshot(&b0.root, &self.probes);
         let need_raw = !self.is_plain();
         let before_raw = if need_raw { self.raw_snaps(b0) } else { vec![] };
-        let k0 = self.key_of(&before, &before_raw);
+        let held0 = held_desc(b0);
+        let k0 = self.key_of(&before, &before_raw, &held0);
         if k0 != st.key {
             eprintln!(
                 "MACHINERY: nondeterministic replay on {} (history {:?})",
@@ -954,13 +1031,20 @@ impl Space for TreeSpace {
             if !self.op_enabled(op, &before, model) {
                 continue;
             }
+            // session steps: at most one handle is open, one flush per session
+            match op {
+                Op::OpenWrite(..) if !held0.is_empty() => continue,
+                Op::CloseWrite if held0.is_empty() => continue,
+                Op::FlushWrite if held0.is_empty() || held0.ends_with(b"|flushed") => continue,
+                _ => {}
+            }
             let b = match sys.take() {
                 Some(b) => b,
                 None => self.rebuild(st.init, &st.hist),
             };
             let deep_before = if self.mon.lower_immutable { lower_deep(&b) } else { vec![] };
             b.ctl.arm([0, 0]);
-            let out = apply(&b.root, op);
+            let out = apply_sess(&b, op);
             let ncalls = b.ctl.calls.load(std::sync::atomic::Ordering::SeqCst);
             let log = b.ctl.disarm();
             let after = snapshot(&b.root, &self.probes);
@@ -981,7 +1065,7 @@ impl Space for TreeSpace {
                     });
                 }
             }
-            let key = self.key_of(&after, &after_raw);
+            let key = self.key_of(&after, &after_raw, &held_desc(&b));
             let changed = key != st.key;
             // statistics
             *e.counters.entry(format!("{}:{}", op.name(), out.class())).or_insert(0) += 1;
